@@ -1154,6 +1154,16 @@ def c04_mixtures(tier, seed):
             for x in (a, b):
                 if x not in single:
                     single[x] = S.real_descriptors(lib, x)
+        # a component that cannot be decomposed makes the mixture fail wherever it stands -- also behind species that RDKit keeps as explicit hydrogen atoms
+        # ([H][H], [H]: their atoms come FIRST in the atom list, before any heavy atom)
+        undecomposable = [x for x in ('N', 'CN', 'C[Si]', 'S') if S.real_descriptors(lib, x)[0] == 'fail'][:2]
+        for u_ in undecomposable:
+            for o_ in ('[H][H]', '[H]', 'CC'):
+                extra += [(o_, u_), (u_, o_)]
+        for a, b in extra:
+            for x in (a, b):
+                if x not in single:
+                    single[x] = S.real_descriptors(lib, x)
         pairs = extra + pairs
         for a, b in pairs:
             n += 1
